@@ -37,7 +37,7 @@ META = {
             "kernel-checked theorems show that the model's gorilla/mux router over that table classifies every (method, path) exactly as the property's "
             "definition of a hijacked request, that every non-hijacked request with a clean path is relayed with identical method, path, query, headers "
             "and body and answered with the daemon's response, that a hijacked request is never forwarded as the call it replaces, and that every handler "
-            "model meets every clause of the property except in three corners that the unchanged code really has (recorded as known findings with "
+            "model meets every clause of the property except in four corners that the unchanged code really has (recorded as known findings with "
             "witnesses proved in Lean). The relay set-up of New (which round tripper the reverse proxy gets, which of its fields are set from which "
             "configuration field or constant, the client-facing server's timeouts and handler chain) is translated semantically and INTERPRETED by "
             "the model: it is proved that today's set-up puts no bound on the daemon's time to first byte under any configuration, hence a relayed call "
@@ -51,7 +51,10 @@ META = {
             "Pins, only-hash=true adds nothing, repo/stat sums a peer iff its call succeeded), that error-means-no-operation holds at full strength for "
             "pin add/rm/ls and repo/stat and fails for pin/update, add and repo/gc exactly through the trailing Unpin resp. the final X-Stream-Error, "
             "that a dropped return, an arm answering 200 or an ignored error break these statements (refutations), and that the hand-written handler "
-            "models agree with the interpreted structures (status and RPC outcomes) on every environment. The model is tied to the code by sending thousands of seeded raw HTTP requests through the real proxy between a "
+            "models agree with the interpreted structures (status and RPC outcomes; repo/gc also the X-Stream-Error trailer; repo/stat one RepoStat "
+            "outcome per peer) on every environment. The repo/gc model takes the query: a collection that reported a peer or key error is answered "
+            "200 + X-Stream-Error unless stream-errors=true (literal spelling) — the fourth corner (known finding K12d), proved to be exactly that "
+            "condition, witnessed in Lean, generated for every stream-errors value and matched on the real proxy. The model is tied to the code by sending thousands of seeded raw HTTP requests through the real proxy between a "
             "recording daemon and recording cluster RPC services, comparing with the model and evaluating the Lean property clauses on the real observations.",
     "note": "Trusted: Lean kernel, hand-written model/spec, harness fakes and dependency oracles (go-path, go-cid, multipart/DAG-builder acceptance), "
             "translator. net/http, httputil.ReverseProxy and gorilla/mux are modelled, not verified.",
